@@ -50,7 +50,7 @@ impl Conn {
 }
 
 /// The scripted server. One instance serves all connections of a case.
-pub trait Server {
+pub trait Server: Send {
     /// false => the connection is refused (`SocketConnect`).
     fn on_connect(&mut self, _conn: &mut Conn) -> bool { true }
     /// Called for every datagram / write. false => the send fails (`PacketSend`).
@@ -101,8 +101,8 @@ impl Server for Box<dyn Server> {
 }
 
 /// Wrap a closure as a server (reacts to sends only).
-pub struct FnServer<F: FnMut(&mut Conn, &[u8]) -> bool>(pub F);
-impl<F: FnMut(&mut Conn, &[u8]) -> bool> Server for FnServer<F> {
+pub struct FnServer<F: FnMut(&mut Conn, &[u8]) -> bool + Send>(pub F);
+impl<F: FnMut(&mut Conn, &[u8]) -> bool + Send> Server for FnServer<F> {
     fn on_send(&mut self, conn: &mut Conn, data: &[u8]) -> bool { (self.0)(conn, data) }
 }
 
